@@ -48,6 +48,21 @@ CLAIMED = {
         'axis. Value-exactness of the reads (index arithmetic) is not '
         'decided.',
         'DESIGN.md section 5, C05'),
+    'C09': (
+        'schema agreement of sibling producers, CFG must-pass in merge '
+        'loops, symbolic-term check of additive form and reduction axes, '
+        'guard dominance',
+        'Decides: the per-chunk result, the worker buffer and the output '
+        'file agree on the statistics key table and the readers\' '
+        'required datasets are written; every merge loop updates every '
+        'key it iterates; each statistic is the cell count or a cell-axis '
+        'sum of an element-wise expression and CPM totals are taken per '
+        'cell, so the result is additive over any split of the cells; '
+        'unknown cells are skipped before any indexed use and the '
+        'sentinel is not a valid row; the taxonomy dataset is written '
+        'after the numeric data. The numbers, thresholds, truncation and '
+        'merge_precompute_files row arithmetic are not decided.',
+        'DESIGN.md section 5, C09'),
     'C10': (
         'CFG must-call, encapsulation (mutation through aliases decided by '
         'symbolic expansion, transitive purity of helpers), intra-package '
@@ -118,6 +133,19 @@ CLAIMED = {
         'table together to the sorted union of all groups. Equality of '
         'the results of two runs is not decided.',
         'DESIGN.md section 5, C17'),
+    'C18': (
+        'HDF5 schema extraction per (function, path/handle) with callee '
+        'and worker closure; required-reads subset of writes; name '
+        'provenance on symbolic terms',
+        'Decides the schema part of stage composition: for the '
+        'statistics file, the reference-marker file, the p-value mask and '
+        'the per-run marker cache every dataset a consuming stage '
+        'requires is written by the producing stage; gene names in '
+        'marker files derive from the statistics file, cluster rows are '
+        'looked up in cluster_to_row, and extra top-level keys of marker '
+        'lookups are stripped by the mapper. The centroid self-mapping '
+        'statement (numeric) is not decided.',
+        'DESIGN.md section 5, C18'),
     'C19': (
         'interprocedural path-effect analysis seeded from the argschema '
         'declarations, CFG acquire/release pairing with ownership transfer '
